@@ -579,7 +579,8 @@ impl Interp {
 }
 
 fn repo_version() -> String {
-    let t = std::fs::read_to_string("/repo/Cargo.toml").unwrap_or_default();
+    let repo = std::env::args().find_map(|a| a.strip_prefix("repo=").map(|s| s.to_string())).unwrap_or_else(|| "/repo".to_string());
+    let t = std::fs::read_to_string(format!("{}/Cargo.toml", repo)).unwrap_or_default();
     for l in t.lines() {
         if let Some(r) = l.strip_prefix("version = ") {
             return r.trim().trim_matches('"').to_string();
